@@ -82,6 +82,9 @@ pub enum Action {
     /// put them into (transaction N in slot (N + 1) % 2), they are exchanged (slot fields and
     /// checksums adjusted).  A no-op on files written by the pinned alternation rule.
     PinnedLayout,
+    /// the two header pages exchanged with the handle closed (slot numbers and checksums fixed up):
+    /// a valid file whose newest header sits in the slot a parity rule would not expect
+    SwapSlots,
     /// environment damage: with the handle closed, the last id is dropped from the persisted free
     /// list (that page is then neither reachable nor free: DB::check and strict-mode commits refuse)
     LeakFreePage,
@@ -106,6 +109,7 @@ impl Action {
             Action::Reopen => json!("reopen"),
             Action::TearOtherSlot => json!("tear-other-header-slot"),
             Action::PinnedLayout => json!("headers-into-pinned-slots"),
+            Action::SwapSlots => json!("header-slots-exchanged"),
             Action::LegacyHeaders => json!("headers-into-legacy-format"),
             Action::PanicWithReader => json!("panic-while-a-reader-is-open"),
             Action::LeakFreePage => json!("drop-last-id-from-free-list"),
@@ -122,6 +126,7 @@ impl Action {
                 "reopen" => Action::Reopen,
                 "tear-other-header-slot" => Action::TearOtherSlot,
                 "headers-into-pinned-slots" => Action::PinnedLayout,
+                "header-slots-exchanged" => Action::SwapSlots,
                 "headers-into-legacy-format" => Action::LegacyHeaders,
                 "panic-while-a-reader-is-open" => Action::PanicWithReader,
                 "drop-last-id-from-free-list" => Action::LeakFreePage,
@@ -1070,15 +1075,16 @@ impl Runner {
                 }
                 self.check_committed_state(or, &what, &mut out);
             }
-            Action::PinnedLayout => {
+            Action::PinnedLayout | Action::SwapSlots => {
                 if !self.readers.is_empty() {
                     return out;
                 }
+                let always = matches!(a, Action::SwapSlots);
                 self.db = None;
                 let bytes = self.file_bytes();
                 let ps = self.cfg.pagesize;
                 if let (Ok(m0), Ok(m1)) = (crate::fileck::read_meta(&bytes, ps, 0), crate::fileck::read_meta(&bytes, ps, 1)) {
-                    if m0.tx_id != m1.tx_id && !m0.legacy && !m1.legacy && (m0.tx_id + 1) % 2 != 0 {
+                    if m0.tx_id != m1.tx_id && !m0.legacy && !m1.legacy && (always || (m0.tx_id + 1) % 2 != 0) {
                         // transaction m0.tx_id belongs into slot (tx + 1) % 2 = 1: exchange the two pages
                         let psz = ps as usize;
                         let mut p0 = bytes[psz..2 * psz].to_vec();
